@@ -195,7 +195,12 @@ func genCase(t *rapid.T, rec *evid.Rec, maxPlies int) Case {
 	var root refchess.Pos
 	var label string
 	if gen.Chance(t, 1, 4, "epParent") {
-		if p, _, name, ok := gen.EPMotif(t); ok {
+		if p, _, ok := gen.EPTwoOnePinned(t); ok && gen.Chance(t, 1, 3, "twoOnePinned") {
+			root, label = p, "parent_ep_two_capturers_one_pinned"
+			if gen.Chance(t, 1, 2, "mirror") {
+				root = gen.MirrorColors(root)
+			}
+		} else if p, _, name, ok := gen.EPMotif(t); ok {
 			root, label = p, "parent_"+name
 			if gen.Chance(t, 1, 2, "mirror") {
 				root = gen.MirrorColors(root)
